@@ -499,9 +499,17 @@ def predicate_counter(B, ev):
     # evicted element and its predicate from the path condition of the decrement
     E = None
     predE = None
-    for c in ev.pc:
-        if not isinstance(c, tuple):
-            continue
+    def flat(cs):
+        # a && b on a path holds iff both conjuncts hold
+        out, todo = [], [c for c in cs if isinstance(c, tuple)]
+        while todo:
+            c = todo.pop(0)
+            if c[0] == 'op' and c[1] == 'and':
+                todo = list(c[2]) + todo
+            else:
+                out.append(c)
+        return out
+    for c in flat(ev.pc):
         for x in subterms(c):
             if x[0] in ('back', 'front') and x[1][0] == 'in' and x[1][1] in B.buffers:
                 E, predE = x, c
@@ -535,6 +543,7 @@ def predicate_counter(B, ev):
     ctx = B.ctx(B.m.up_vg)
     from .solve import linear, NonLinear
     for conds, leaf in cases_deep(pexit):
+        conds_raw, conds = conds, flat(conds)
         try:
             co, k = linear(leaf, ctx)
         except NonLinear:
@@ -554,6 +563,16 @@ def predicate_counter(B, ev):
         if untouched:
             continue  # the path on which nothing is delivered
         tv, tg, te = truth(predV), truth(G), truth(predE)
+        if tv is not None and (tg is None or (tg and te is None)) and G != TRUE:
+            # the eviction and its predicate tested as one conjunction (`evicted.is_some_and(pred)`): a refuted G && pred(E) means
+            # "nothing counted leaves", which is all the counting invariant needs on this path
+            for c in conds:
+                if c[0] == 'op' and c[1] == 'not' and c[2][0][0] == 'op' and c[2][0][1] == 'and' and \
+                        {G, predE} <= set(flat([c[2][0]])) <= {G, predE, op('gt', ('len', ('in', q)), lit(0, 'i'))}:
+                    # (a third conjunct `len(q) > 0` -- the pop actually yields an element -- is part of "an element leaves")
+                    tg, te = True, False      # contribution [G and pred(E)] = 0; (G, pred(E)) individually irrelevant
+                    if truth(G) is False:
+                        tg = False
         if tv is None or tg is None or (tg and te is None):
             return False, 'counter case does not determine the predicates: %s' % [tstr(c)[:40] for c in conds]
         want = (1 if tv else 0) - (1 if (tg and te) else 0)
